@@ -988,16 +988,31 @@ def replay(path):
     d = json.load(open(path))
     chk = Check(PID, "quick")
     rp = d["replay"]
+    os.makedirs(GEN, exist_ok=True)
     try:
+        import logging
+        logging.disable(logging.CRITICAL)
         if rp["kind"] == "replay":
-            import logging
-            logging.disable(logging.CRITICAL)
             rr = replay_path(os.path.join(chk.scratch, "rp"), rp["init"], [(lab, st) for lab, st in rp["path"]])
             chk.evaluated(("replay",))
             if rr:
                 chk.violation(rr[0], rr[1], rp)
+        elif rp["kind"] == "trace":
+            code_to_spec(chk, "quick", only_seed=rp["seed"])
+        elif rp["kind"] == "map":
+            r = _map_chunk(([rp["case"]], os.path.join(chk.scratch, "map")))[0]
+            chk.evaluated(("map",))
+            if r is not None:
+                fields, det = diff(r[0], r[1])
+                chk.violation(map_key(rp["case"]["case"]) + ":" + "+".join(fields), det, rp)
+        elif rp["kind"] == "exit":
+            chk.evaluated(("exit",))
+            for c, got in _exit_cases([rp["case"]], os.path.join(chk.scratch, "exit")):
+                fields, det = diff(got, c["res"])
+                chk.violation("exit:" + "+".join(fields), det, rp)
         else:
             print("re-run ./check G06: the case is re-derived from the specification; case:", rp.get("case"))
+        logging.disable(logging.NOTSET)
         return chk.finish()
     finally:
         shutil.rmtree(GEN, ignore_errors=True)
